@@ -291,6 +291,13 @@ func c15RunCase(c *c15Case) (mm *c15Mismatch, nontrivial bool) {
 		toSet[p] = true
 	}
 	var obs []c15Obs
+	var kept []*insaneJSON.Root // the passed EVENTS are kept: their text is looked at once more at the end of the case
+	var keptRoots []*insaneJSON.Root
+	defer func() {
+		for _, r := range keptRoots {
+			insaneJSON.Release(r)
+		}
+	}()
 	at := 0
 	emptyLog := false
 	panicked := false
@@ -337,12 +344,24 @@ func c15RunCase(c *c15Case) (mm *c15Mismatch, nontrivial bool) {
 				} else {
 					obs = append(obs, c15Obs{C: k + 1, Log: c15Esc(strings.Clone(node.AsString()))})
 				}
+				kept = append(kept, root)
 			}
-			insaneJSON.Release(root)
+			keptRoots = append(keptRoots, root)
 		}
 	}()
 	if panicked {
 		return mm, nontrivial
+	}
+	// an output that keeps events for a while must still see the text the event had when it was passed on
+	for i, root := range kept {
+		late := "<no log field>"
+		if node := root.Dig("log"); node != nil {
+			late = c15Esc(node.AsString())
+		}
+		if late != obs[i].Log {
+			return &c15Mismatch{Kind: "flushed_text_changed", Plugin: "k8s_multiline", Case: c, Got: obs, At: obs[i].C,
+				Panic: "text at the end of the case: " + late}, nontrivial
+		}
 	}
 	if c15AllRunsOK(c, esc, obs, false) {
 		return nil, nontrivial
